@@ -102,6 +102,16 @@ func checkC17(c C17Case, rec *obs.Recorder) *obs.Violation {
 		if len(ids) > maxChain {
 			maxChain = len(ids)
 		}
+		// an identifier the caller extends (to derive a lookup key, say) is the caller's copy: its
+		// neighbours in the same result stay what they were
+		if probe := tk.tok.RevocationIds(); len(probe) == len(ids) {
+			for i := 0; i+1 < len(probe); i++ {
+				_ = append(probe[i], 0xEE, 0xEE, 0xEE, 0xEE)
+				if !bytes.Equal(probe[i+1], all[i+1].Signature) {
+					return obs.ViolK("neighbour", "history [%s]: token %d: appending to identifier %d of a RevocationIds() result changed identifier %d of the same result", strings.Join(hist, ","), k, i, i+1)
+				}
+			}
+		}
 		if live[k].birth == nil {
 			for _, id := range ids {
 				live[k].birth = append(live[k].birth, append([]byte{}, id...))
@@ -142,8 +152,20 @@ func checkC17(c C17Case, rec *obs.Recorder) *obs.Violation {
 		return observe(len(live)-1, nil)
 	}
 	hist = append(hist, "build")
-	if v := build(0); v != nil {
-		return v
+	// the first token comes from a builder that is kept (and asked for more tokens later)
+	firstBuilder := biscuit.NewBuilder(priv, biscuit.WithRNG(rng))
+	if err := bridge.AddBlockTo(firstAuthority{firstBuilder}, c.Contents[0]); err != nil {
+		return obs.Violf("build: %v", err)
+	}
+	if ft, err := firstBuilder.Build(); err != nil {
+		return obs.Violf("build: %v", err)
+	} else {
+		live = append(live, c17Tok{tok: ft, signed: []int{nextSign}})
+		nextSign++
+		contentSigned[0]++
+		if v := observe(0, nil); v != nil {
+			return v
+		}
 	}
 	for _, op := range c.Ops {
 		on := op.On % len(live)
@@ -203,6 +225,20 @@ func checkC17(c C17Case, rec *obs.Recorder) *obs.Violation {
 				if v := observe(len(live)-1, &parent); v != nil {
 					return v
 				}
+			}
+		case "build-again":
+			// the builder that made the first token is asked for another one: a new signing operation
+			hist = append(hist, "build-again")
+			nt, err := firstBuilder.Build()
+			if err != nil {
+				return obs.Violf("history [%s]: second Build on one builder: %v", strings.Join(hist, ","), err)
+			}
+			live = append(live, c17Tok{tok: nt, signed: []int{nextSign}})
+			nextSign++
+			contentSigned[0]++
+			sameContentTwice = true
+			if v := observe(len(live)-1, nil); v != nil {
+				return v
 			}
 		case "build":
 			hist = append(hist, fmt.Sprintf("build(c%d)", op.Content%len(c.Contents)))
@@ -300,7 +336,7 @@ func drawC17(t *rapid.T) C17Case {
 	n := rapid.IntRange(1, 14).Draw(t, "nops")
 	for i := 0; i < n; i++ {
 		c.Ops = append(c.Ops, C17Op{
-			Op:      rapid.SampledFrom([]string{"append", "append", "append", "append-last", "append-last", "seal", "reload", "reload", "build", "fanout", "append-twice"}).Draw(t, "op"),
+			Op:      rapid.SampledFrom([]string{"append", "append", "append", "append-last", "append-last", "seal", "reload", "reload", "build", "build-again", "fanout", "append-twice"}).Draw(t, "op"),
 			On:      rapid.IntRange(0, 11).Draw(t, "on"),
 			Content: rapid.IntRange(0, 1).Draw(t, "content"),
 		})
@@ -311,7 +347,14 @@ func drawC17(t *rapid.T) C17Case {
 func TestC17(t *testing.T) {
 	rec := obs.New("C17")
 	defer rec.Flush(true)
-	rec.SetExtra("rule", "rapid derivation histories over a growing family of tokens under one root key: build / append / seal / serialize+unmarshal on any live token (the byte buffer handed to Unmarshal is overwritten afterwards, as a caller reusing its buffer would), block content drawn from a pool of 1-2 contents so identical content is signed repeatedly on the same and on different tokens, one deterministic random stream that never repeats, delivered whole or in short reads of 1 / 5 / 31 bytes; operations include append-last (deep chains), fan-out (the same content appended 8 times to one parent) and append-twice (one built *Block value handed to Append twice); every other reload goes through one long-lived Unmarshaler value. Oracle after every step, for every live token: one identifier per block, parent's identifiers are a prefix of the child's, identifier i equals the signature the independent reader finds on block i, identifiers of different signing operations are pairwise different over the whole history, the parent is unchanged, and the byte slice Serialize returned when a token was made still decodes to the same signatures after every later call. Non-trivial = identical content signed at least twice, or a chain of >= 3 blocks; distinct by history.")
+	rec.SetExtra("rule", "rapid derivation histories over a growing family of tokens under one root key: build / append / seal / serialize+unmarshal on any live token (the byte buffer handed to Unmarshal is overwritten afterwards, as a caller reusing its buffer would), block content drawn from a pool of 1-2 contents so identical content is signed repeatedly on the same and on different tokens, one deterministic random stream that never repeats, delivered whole or in short reads of 1 / 5 / 31 bytes; operations include append-last (deep chains), fan-out (the same content appended 8 times to one parent) append-twice (one built *Block value handed to Append twice) and build-again (the builder of the first token asked for another token); appending to one identifier of a RevocationIds() result must leave its neighbours alone; every other reload goes through one long-lived Unmarshaler value. Oracle after every step, for every live token: one identifier per block, parent's identifiers are a prefix of the child's, identifier i equals the signature the independent reader finds on block i, identifiers of different signing operations are pairwise different over the whole history, the parent is unchanged, and the byte slice Serialize returned when a token was made still decodes to the same signatures after every later call. Non-trivial = identical content signed at least twice, or a chain of >= 3 blocks; distinct by history.")
 	rec.SetExtra("assumptions", []string{"fresh randomness is modelled by a counter-mode SHA-256 stream (never repeats within a history)"})
 	harness.RunWith(t, harness.Spec[C17Case]{ID: "C17", Draw: drawC17, Check: checkC17}, rec)
 }
+
+// firstAuthority lets bridge.AddBlockTo fill the authority block of a Builder.
+type firstAuthority struct{ biscuit.Builder }
+
+func (a firstAuthority) AddFact(f biscuit.Fact) error   { return a.AddAuthorityFact(f) }
+func (a firstAuthority) AddRule(r biscuit.Rule) error   { return a.AddAuthorityRule(r) }
+func (a firstAuthority) AddCheck(c biscuit.Check) error { return a.AddAuthorityCheck(c) }
